@@ -226,11 +226,34 @@ def _methods_rule(chk, prog, tu):
                 chk.violation(rule, tu.name, name, k, tu.file, "reversed method %r is never requested by the interpreter" % k)
 
 
+def _shift_rule(chk, tu):
+    rule = "C14-SHIFT"
+    chk.rule(rule, "int/s64 right shift is computed on the signed value (sign-preserving), int/u64 on the unsigned value")
+    for name, signed in (("cfun_it_s64_rshift", True), ("cfun_it_u64_rshift", False)):
+        fn = tu.funcs.get(name)
+        if fn is None:
+            raise AnalysisBroken("%s not found" % name)
+        shifts = [n for n in fn.nodes if n.k == "bin" and n.op == ">>"]
+        if not shifts:
+            raise AnalysisBroken("%s: no >> found" % name)
+        for n in shifts:
+            chk.instance(rule)
+            lt = (n.kids[0].t or "")
+            is_signed = lt in ("int64_t", "long", "long long")
+            if is_signed == signed:
+                chk.ok(rule, "%s: >> on %s" % (name, lt))
+            else:
+                chk.violation(rule, "inttypes.c", name, ">>", n.loc,
+                              "%s shifts a value of type %s: %s" % (name, lt, "negative int/s64 values would be zero-filled instead of "
+                                                                  "sign-extended" if signed else "unsigned values must not be sign-extended"))
+
+
 def run(chk):
     prog = Program.load("default", units=["inttypes.c"])
     tu = prog.tus["inttypes.c"]
     _div_rule(chk, tu)
     _wrap_rule(chk, tu)
+    _shift_rule(chk, tu)
     _methods_rule(chk, prog, tu)
     chk.floor("C14-DIV", 14)
     chk.floor("C14-WRAP", 10)
